@@ -314,8 +314,12 @@ def check_ops(case):
                         else:
                             lo, hi = addr, addr + f.size
                             if f.perl.startswith("A"):
-                                val = "app%d" % (op["value"] % 1000)
-                                want = val.encode().ljust(f.size, b"\0")
+                                # names are text, stored as UTF-8
+                                val = ["app%d", "caf\u00e9%d", "r\u00e9s-"
+                                       "\u00fc%d"][op["value"] % 3] % (
+                                    op["value"] % 1000)
+                                want = val.encode("utf-8").ljust(f.size,
+                                                                 b"\0")
                             else:
                                 val = op["value"] & \
                                     ((1 << (8 * f.elem_size)) - 1)
